@@ -448,7 +448,7 @@ class lfu_cache(object):
     See: http://en.wikipedia.org/wiki/Cache_algorithms#Least_Frequently_Used
     """
     def __new__(cls, *args, **kwds):
-        maxsize = kwds.get('maxsize', -1)
+        maxsize = kwds.get('maxsize', args[0] if args else -1)
         if maxsize == 0:
             return no_cache(*args, **kwds)
         if maxsize is None:
@@ -669,7 +669,7 @@ class lru_cache(object):
     See: http://en.wikipedia.org/wiki/Cache_algorithms#Least_Recently_Used
     """
     def __new__(cls, *args, **kwds):
-        maxsize = kwds.get('maxsize', -1)
+        maxsize = kwds.get('maxsize', args[0] if args else -1)
         if maxsize == 0:
             return no_cache(*args, **kwds)
         if maxsize is None:
@@ -917,7 +917,7 @@ class mru_cache(object):
     See: http://en.wikipedia.org/wiki/Cache_algorithms#Most_Recently_Used
     """
     def __new__(cls, *args, **kwds):
-        maxsize = kwds.get('maxsize', -1)
+        maxsize = kwds.get('maxsize', args[0] if args else -1)
         if maxsize == 0:
             return no_cache(*args, **kwds)
         if maxsize is None:
@@ -1140,7 +1140,7 @@ class rr_cache(object):
     http://en.wikipedia.org/wiki/Cache_algorithms#Random_Replacement
     """
     def __new__(cls, *args, **kwds):
-        maxsize = kwds.get('maxsize', -1)
+        maxsize = kwds.get('maxsize', args[0] if args else -1)
         if maxsize == 0:
             return no_cache(*args, **kwds)
         if maxsize is None:
